@@ -299,6 +299,17 @@ pub trait VxIntoAttrF {}
 // `Fingerprint::default().into()`
 #[verifier::external_body]
 pub fn vx_fp_default_attr() -> (r: StunAttribute) ensures r == fp_default_attr(), r.ty() == TY_FINGERPRINT { unimplemented!() }
+
+impl Default for StunAttributes {
+//@item stun_agent :: mod message > impl ::core::default::Default for StunAttributes > fn default
+//@tags C13 C19
+//@spec
+    // the empty attribute set satisfies the representation invariant
+    ensures r.wf(), r.flat() == Seq::<StunAttribute>::empty(),
+//@head
+    proof { reveal(distinct_types); }
+//@end
+}
 proof fn vx_sentinel() ensures false {}
 } // verus!
 fn main() {}
